@@ -295,13 +295,8 @@ def renameEntry (v pSect : Nat) (oldName : Bytes) (nPSect : Nat) (newName : Byte
     if entry.secType = ST_DIR then
       let rc ← renameUpWalk v vc.rootBlock nSect nblocks nPSect
       if rc ≠ rcOK then return rc
-    -- change name and parent dir
-    let entry := (entry.setByte O_nameLen len).setBytes O_name (newName.take len)
-    let entry := entry.setW F_parent nPSect
+    -- the entry's own block is rewritten only once it is out of its old chain
     let tmpSect := entry.w F_nextSameHash
-    let entry := entry.setW F_nextSameHash 0
-    let rc ← writeEntryBlock v nSect entry
-    if rc ≠ rcOK then return rc
     -- del from the old chain
     let parent ← if prevSect = 0 then pure (parent.setHash hvO tmpSect) else do
         let (rc, previous) ← readEntryBlock v prevSect
@@ -311,6 +306,12 @@ def renameEntry (v pSect : Nat) (oldName : Bytes) (nPSect : Nat) (newName : Byte
         pure parent
     let parent := stampDates parent (← now)
     let (rc, parent) ← writeParent v parent pSect
+    if rc ≠ rcOK then return rc
+    -- change name and parent dir
+    let entry := (entry.setByte O_nameLen len).setBytes O_name (newName.take len)
+    let entry := entry.setW F_parent nPSect
+    let entry := entry.setW F_nextSameHash 0
+    let rc ← writeEntryBlock v nSect entry
     if rc ≠ rcOK then return rc
     let (rc, nParent) ← readEntryBlock v nPSect
     if rc ≠ rcOK then return rc
